@@ -100,6 +100,8 @@ CallChoices ==
         ELSE {})
   \cup { <<"Free", [h |-> h]>> : h \in Handles \cup {0} }
   \cup { <<"Crypt", [h |-> h, pw |-> Pw, len |-> 2]>> : h \in Handles }
+  \cup (IF Rich THEN { <<"Encode", [h |-> h, lang |-> k, coin |-> c]>> : h \in Handles, k \in LangPool, c \in {2047} }
+        ELSE {})
   \cup (IF Rich THEN { <<"Keygen", [h |-> h, coin |-> 2047, size |-> 32, size_mid |-> 0, size_hi |-> 0]>> : h \in Handles }
                 \cup { <<"Store", [h |-> h]>> : h \in Handles }
                 \cup { <<"Feature", [h |-> h, lo |-> 7, hi |-> 0]>> : h \in Handles }
@@ -134,6 +136,11 @@ DepChoices ==
             b \in { x \in OwnBlocks \cup TargetBlock : ~blocks[x].wiped } }
   \cup { [e |-> "Free", impl |-> Implof("free"), blk |-> b, zero |-> TRUE] :
             b \in { x \in OwnBlocks \cup TargetBlock : blocks[x].wiped } }
+  \cup (IF call.op = "Encode" /\ G(call.a.lang).compose /\ Count("Nfc") = 0
+        THEN { [e |-> "Nfc", impl |-> Implof("nfc"), in |-> EncodeDecomposed(SeedOf(call.a.h), call.a.lang, call.a.coin),
+                out |-> PhraseComposed(G(call.a.lang), PhraseWords(SeedOf(call.a.h), call.a.coin)),
+                full |-> Len(PhraseComposed(G(call.a.lang), PhraseWords(SeedOf(call.a.h), call.a.coin)))] }
+        ELSE {})
   \cup (IF call.op = "Keygen" /\ Count("Kdf") = 0
         THEN { [e |-> "Kdf", impl |-> Implof("kdf"), pwlen |-> 32, pw |-> KeygenPw(SeedOf(call.a.h)), saltlen |-> 32,
                 salt |-> KeygenSalt(SeedOf(call.a.h), call.a.coin), iter_lo |-> 10000, iter_hi |-> 0,
@@ -167,6 +174,8 @@ RetChoices ==
          [] op = "Keygen" -> { [e |-> "Ret", op |-> op, residue |-> <<>>, keyintact |-> TRUE] }
          [] op = "Crypt" -> { [e |-> "Ret", op |-> op, residue |-> <<>>, intact |-> TRUE] }
          [] op = "Store" -> { [e |-> "Ret", op |-> op, residue |-> <<>>, img |-> StoreImage(SeedOf(call.a.h)), spill |-> FALSE] }
+         [] op = "Encode" -> { [e |-> "Ret", op |-> op, residue |-> <<>>, str |-> EncodeOut(SeedOf(call.a.h), call.a.lang, call.a.coin),
+                                ret |-> Len(EncodeOut(SeedOf(call.a.h), call.a.lang, call.a.coin)), terminated |-> TRUE, spill |-> FALSE] }
          [] op = "Feature" -> { [e |-> "Ret", op |-> op, residue |-> <<>>, hi |-> 0, lo |-> v] : v \in 0..7 }
          [] OTHER -> { [e |-> "Ret", op |-> op, residue |-> <<>>] }
 
